@@ -89,7 +89,9 @@ func encodeCases(e *Env, t *schema.Type) []ecase {
 		for _, l := range ls {
 			g := e.Gen(&gen.Opts{Arbitrary: true, NoNilBody: true, Lens: []int{l}, StrLens: []int{l}}, t.QName, "long", l)
 			if l > 1000 {
-				g.O.StrLens = []int{3, l}
+				g.O.StrLens = []int{3} // long lists carry short texts; long texts sit in short lists
+				g2 := e.Gen(&gen.Opts{Arbitrary: true, NoNilBody: true, Lens: []int{2}, StrLens: []int{l}}, t.QName, "longtext", l)
+				cs = append(cs, ecase{fmt.Sprintf("long-texts:%d", l), g2.Value(t)})
 			}
 			cs = append(cs, ecase{fmt.Sprintf("long-lists:%d", l), g.Value(t)})
 		}
